@@ -69,7 +69,13 @@ def decide(gd, idx, cls, via_run_games=False):
             cr = monitors.mods()["conditionalrewards"]
             with monitors.budget(sc.limit_for(an) * 3):
                 try:
-                    rr = cr.run_games({"g": games.to_solver(gd)})
+                    d_ = games.to_solver(gd)
+                    if (idx // 10) % 2:
+                        # the description carries a prune_states entry of its own (a constructor argument, so a legal key): each
+                        # of the two passes must still run in ITS mode
+                        d_["prune_states"] = (idx // 20) % 2 == 1
+                        res["stats"]["run_games_with_own_prune_key"] = 1
+                    rr = cr.run_games({"g": d_})
                 except monitors.StepBudgetExceeded:
                     rr = None
                 finally:
